@@ -39,16 +39,65 @@ def attr(ip, lib, name, node):
 
 
 # ---------------------------------------------------------------------------------------------
+def _write_out(ip, out, t, node):
+    """ufunc(..., out=arr): the result is stored into the existing array, which is also what the call returns"""
+    if isinstance(out, Arr):
+        out.t = t
+        ip.note_dtype_cast(out, node, 'ufunc out=')
+        if not out.fresh:
+            ip.event('write', out.origin, node, via='ufunc-out')
+        return out
+    if isinstance(out, View):
+        ip.write_view(out, t, node, how='ufunc-out')
+        return out
+    raise Unsupported('ufunc out= is not an array', node)
+
+
+def _out_arg(args, kwargs, nin):
+    out = kwargs.get('out')
+    if out is None and len(args) > nin:
+        out = args[nin]
+    if isinstance(out, Const) and out.v is None:
+        out = None
+    extra = sorted(k for k in kwargs if k not in ('out',))
+    return out, extra
+
+
 def _elementwise(f):
     def g(ip, args, kwargs, node):
-        if len(args) != 1:
-            raise Unsupported('elementwise call with %d args' % len(args), node)
+        out, extra = _out_arg(args, kwargs, 1)
+        if extra or len(args) > 2 or not args:
+            raise Unsupported('elementwise call with %d args / keywords %s' % (len(args), extra), node)
         x = args[0]
         if isinstance(x, Masked):
+            if out is not None:
+                raise Unsupported('out= with a masked operand', node)
             return Masked(_apply(f, x.t, node), x.cond)
         t, k = ip.term_of(x, node)
-        return ip.make_result(_apply(f, t, node), k)
+        r = _apply(f, t, node)
+        if out is not None:
+            return _write_out(ip, out, r, node)
+        return ip.make_result(r, k)
     return g
+
+
+def _binary_ufunc(op):
+    def g(ip, args, kwargs, node):
+        out, extra = _out_arg(args, kwargs, 2)
+        if extra or len(args) < 2 or len(args) > 3:
+            raise Unsupported('binary ufunc with %d args / keywords %s' % (len(args), extra), node)
+        if isinstance(args[0], Masked) or isinstance(args[1], Masked):
+            raise Unsupported('binary ufunc on masked operands', node)
+        t = ip.arith(op, args[0], args[1], node)
+        if out is not None:
+            return _write_out(ip, out, t, node)
+        kind = 'array' if any(getattr(x, 'kind', 'scalar') == 'array' for x in args[:2]) else 'scalar'
+        return ip.make_result(t, kind)
+    return g
+
+
+def np_shape(ip, args, kwargs, node):
+    return Obj('shape', {'arr': args[0]})
 
 
 def _apply(f, t, node):
@@ -374,7 +423,15 @@ def sp_dst(ip, args, kwargs, node):
             continue            # the default: un-normalised
         if k == 'axis' and is_const_num(v) and int(num_value(v)) in (-1, 0):
             continue            # pair functions are 1-D: same axis
-        if k in ('norm', 'axis', 'n', 'overwrite_x') and (isinstance(v, Const) or is_const_num(v)):
+        if k == 'n' and not (isinstance(v, Const) and v.v is None):
+            tn, _ = ip.term_of(v, node)
+            if not P.is_pw(tn) and not P.is_pw(t) and (tn.equals(length_of(ip, t)) or same_length(ip, tn, t)):
+                continue        # n == len(x): the default
+            variant.append('n=%s' % P.show(tn))     # zero-padded / truncated transform: another linear map
+            continue
+        if k == 'n':
+            continue
+        if k in ('norm', 'axis', 'overwrite_x') and (isinstance(v, Const) or is_const_num(v)):
             variant.append('%s=%s' % (k, v.v if isinstance(v, Const) else num_value(v)))
             continue
         raise Unsupported('dst keyword %s with a non-literal value' % k, node)
@@ -384,6 +441,18 @@ def sp_dst(ip, args, kwargs, node):
     # a normalised / truncated / other-axis transform is a different linear map: a distinct uninterpreted atom
     name = 'dst%d' % ty + (''.join('[%s]' % x for x in variant))
     return ip.fresh_array(N.fn(name, t))
+
+
+def sp_next_fast_len(ip, args, kwargs, node):
+    """smallest 5-smooth (fftpack) / 11-smooth (fft) integer >= n: an uninterpreted integer function that is NOT the
+    identity (next_fast_len(1022) == 1024)"""
+    t, _ = ip.term_of(args[0], node)
+    if P.is_pw(t):
+        raise Unsupported('piecewise length', node)
+    if t.is_const():
+        import scipy.fftpack
+        return const_num(int(scipy.fftpack.next_fast_len(int(t.const_value()))))
+    return Num(N.fn('next_fast_len', t), 'scalar')
 
 
 def sp_root(ip, args, kwargs, node):
@@ -483,7 +552,41 @@ def length_of(ip, t):
         ip.sym_kind.setdefault('len(%s)' % name, 'scalar')
         N.declare_int('len(%s)' % name)
         return N.sym('len(%s)' % name)
+    if not kinds:
+        # an array built from index vectors only: iota(n) / farange-free terms have exactly n points
+        ns = {a[2] for a in t.all_atoms() if a[0] == 'fn' and a[1] == 'iota'}
+        others = [a for a in t.all_atoms() if a[0] == 'fn' and a[1] in ('farange', 'linspace', 'slice', 'dst2', 'dst3')]
+        if len(ns) == 1 and not others:
+            return N.nf_from_key(ns.pop())
     return N.fn('len', t)
+
+
+def length_candidates(ip, t):
+    """terms that all denote the length of the array term t: numpy refuses an elementwise combination of arrays of
+    different lengths, so every array operand of t (and every index vector iota(n)) has the length of t"""
+    out = []
+    if P.is_pw(t):
+        t = next(P.leaves(t))
+    for a in t.all_atoms():
+        if a[0] == 'sym' and ip.sym_kind.get(a[1], 'scalar') != 'scalar':
+            N.declare_int('len(%s)' % a[1])
+            out.append(N.sym('len(%s)' % a[1]))
+        elif a[0] == 'fn' and a[1] == 'iota':
+            out.append(N.nf_from_key(a[2]))
+        elif a[0] == 'fn' and a[1] == 'ent' and isinstance(a[2], str):
+            N.declare_int('len(%s)' % a[2])          # a pair function of the tensor named a[2]: its leading axis
+            out.append(N.sym('len(%s)' % a[2]))
+        elif a[0] == 'fn' and a[1] == 'len' and N.is_nfkey(a[2]):
+            out.extend(length_candidates(ip, N.nf_from_key(a[2])))
+    return out
+
+
+def same_length(ip, n, t):
+    cands = length_candidates(ip, t)
+    if any(n.equals(c) for c in cands):
+        return True
+    mine = length_candidates(ip, n)
+    return any(x.equals(c) for x in mine for c in cands)
 
 
 def shape_len(ip, sh, node):
@@ -700,6 +803,8 @@ CALLS = {
     'numpy.absolute': _elementwise(N.absval),
     'numpy.expm1': _elementwise(_expm1), 'numpy.log1p': _elementwise(_log1p),
     'numpy.square': _elementwise(lambda x: x * x),
+    'numpy.add': _binary_ufunc('Add'), 'numpy.subtract': _binary_ufunc('Sub'), 'numpy.multiply': _binary_ufunc('Mult'),
+    'numpy.divide': _binary_ufunc('Div'), 'numpy.true_divide': _binary_ufunc('Div'), 'numpy.shape': np_shape,
     'numpy.negative': _elementwise(lambda x: -x),
     'math.exp': _scalar_only(N.exp, 'math.exp'), 'math.sin': _scalar_only(N.sin, 'math.sin'),
     'math.cos': _scalar_only(N.cos, 'math.cos'), 'math.sqrt': _scalar_only(N.sqrt, 'math.sqrt'),
@@ -725,6 +830,7 @@ CALLS = {
     'scipy.integrate.simpson': np_trapz, 'scipy.integrate.trapezoid': np_trapz,
     'numpy.meshgrid': np_meshgrid,
     'scipy.fftpack.dst': sp_dst, 'scipy.fft.dst': sp_dst,
+    'scipy.fftpack.next_fast_len': sp_next_fast_len, 'scipy.fft.next_fast_len': sp_next_fast_len,
     'scipy.optimize.root': sp_root,
     'copy.deepcopy': deepcopy, 'copy.copy': None,
     'itertools.product': it_product,
